@@ -567,3 +567,37 @@ val m12w_step : m12w -> event -> m12w option
 val m12w_run : m12w -> event list -> m12w option
 
 val chk_C12_nowait : event list -> bool
+
+type lc =
+| LFresh
+| LStarting
+| LRunning
+| LTaken
+| LHandling of oid
+| LYielded of nat
+| LItem of nat
+| LToFinish
+| LFinishing
+| LToStop of bool
+| LStopping of bool
+| LToStart
+| LExiting
+| LFailing
+| LUnwinding
+| LEnded
+
+type cfg03 = { c_stream : bool; c_restartable : bool; c_failto : bool }
+
+type m03 = { st : lc map0; cf : cfg03 map0; crashing : unit map0 }
+
+val m03_init : m03
+
+val restartable : strategy -> bool
+
+val set_st : m03 -> aid -> lc -> m03 option
+
+val m03_step : m03 -> event -> m03 option
+
+val m03_run : m03 -> event list -> m03 option
+
+val chk_C03 : event list -> bool
